@@ -333,7 +333,7 @@ theorem exit_leave_recipients_fixed_at_removal (a : Nat) (st : State) (mk : List
    fun envs h => Fine.envs_keep_phase a envs _ h,
    fun st' => Fine.finishLeave_events st' a removed⟩
 
-/-- Finding F6 (before the `fix:` commit the scope / all-scopes listeners were looked up in the
+/-- Finding F7 (before the `fix:` commit the scope / all-scopes listeners were looked up in the
 notification region): then the recipients are NOT fixed at the change. Witness: `join 1 0 [2]` has
 taken effect, actor 1 subscribes to all scopes afterwards, and is among the recipients. -/
 theorem recipients_legacy_not_fixed :
